@@ -99,6 +99,18 @@ fn seq_oracle() -> SeqOracle {
                             out.push(Finding::new("update-weight", "upsert:explicit-weight-not-charged", format!("{} requested weight {} but {:?} is charged", c.op.short(), w, a.weight_of_id(n.2))));
                         }
                     }
+                    // no weight requested, no value: a key whose charged weight is what the configured weight function
+                    // gives for its TTL state keeps that relation when the request adds or removes the TTL (the weight
+                    // function charges `ttl_extra` for the expiry-index entry of a key with a TTL)
+                    if w.is_none() && !has_value {
+                        let (had, has) = (e.3.is_some(), n.3.is_some());
+                        if had != has && b.weight_of_id(e.2) == Some(weight_fn_of(&run.setup, k, had)) {
+                            let want = weight_fn_of(&run.setup, k, has);
+                            if a.weight_of_id(n.2) != Some(want) {
+                                out.push(Finding::new("derived-weight-follows-ttl", "upsert:derived-weight-does-not-follow-ttl", format!("{}: the key was charged {:?} ({} TTL); {} the TTL must leave it charged {} but {:?} is charged", c.op.short(), b.weight_of_id(e.2), if had { "with" } else { "without" }, if has { "adding" } else { "removing" }, want, a.weight_of_id(n.2))));
+                            }
+                        }
+                    }
                     // the expiry index follows
                     if let Some(x) = n.3 {
                         if !a.ttl.iter().any(|t| t.1 == n.2 && t.2 == x) {
@@ -160,6 +172,9 @@ fn seq_oracle() -> SeqOracle {
 fn seq_spec(ctx: &Ctx, shards: usize) -> SeqSpec {
     let mut alphabet = vec![Op::Put { k: 1, w: Some(30), ttl_ms: None }, Op::Put { k: 1, w: Some(30), ttl_ms: Some(2000) }, Op::Put { k: 1, w: None, ttl_ms: Some(2000) }, Op::Delete { k: 1 }, Op::Advance { ms: 3000 }, Op::Advance { ms: 1000 }, Op::TickWait];
     alphabet.extend(shapes(1));
+    // a TTL that is *shorter* than the one the key has (the other shapes extend it), with and without a value
+    alphabet.push(Op::Upsert { k: 1, value: false, w: None, ttl_ms: Some(500), remove_ttl: false });
+    alphabet.push(Op::Upsert { k: 1, value: true, w: None, ttl_ms: Some(700), remove_ttl: false });
     SeqSpec {
         name: format!("seq/upsert-shapes-x-key-states/shards{}", shards),
         setup: Setup { weight: 10_000, shards, buffer: 64, weight_fn: WeightFn::Const { c: 30, ttl_extra: 24 }, ..Setup::default() },
